@@ -416,8 +416,11 @@ func (c *gcmCipher) readCipherPacket(seqNum uint32, r io.Reader) ([]byte, error)
 
 // cbcCipher implements aes128-cbc cipher defined in RFC 4253 section 6.1
 type cbcCipher struct {
-	mac       hash.Hash
-	macSize   uint32
+	mac     hash.Hash
+	macSize uint32
+	// etm is set for the -etm@openssh.com MACs: the packet length is sent in
+	// the clear and the MAC is computed over the ciphertext.
+	etm       bool
 	decrypter cipher.BlockMode
 	encrypter cipher.BlockMode
 
@@ -440,6 +443,7 @@ func newCBCCipher(c cipher.Block, key, iv, macKey []byte, algs DirectionAlgorith
 	}
 	if cbc.mac != nil {
 		cbc.macSize = uint32(cbc.mac.Size())
+		cbc.etm = macModes[algs.MAC].etm
 	}
 
 	return cbc, nil
@@ -492,6 +496,9 @@ type cbcError string
 func (e cbcError) Error() string { return string(e) }
 
 func (c *cbcCipher) readCipherPacket(seqNum uint32, r io.Reader) ([]byte, error) {
+	if c.etm {
+		return c.readCipherPacketETM(seqNum, r)
+	}
 	p, err := c.readCipherPacketLeaky(seqNum, r)
 	if err != nil {
 		if _, ok := err.(cbcError); ok {
@@ -581,7 +588,99 @@ func (c *cbcCipher) readCipherPacketLeaky(seqNum uint32, r io.Reader) ([]byte, e
 	return c.packetData[prefixLen:paddingStart], nil
 }
 
+// readCipherPacketETM reads a packet in encrypt-then-MAC framing: the packet
+// length is not encrypted, and the MAC covers the sequence number, the length
+// and the ciphertext. It is verified before anything is decrypted, so no
+// countermeasure against a padding oracle is needed here.
+func (c *cbcCipher) readCipherPacketETM(seqNum uint32, r io.Reader) ([]byte, error) {
+	if _, err := io.ReadFull(r, c.packetData[:4]); err != nil {
+		return nil, err
+	}
+	length := binary.BigEndian.Uint32(c.packetData[:4])
+	if length > maxPacket {
+		return nil, errors.New("ssh: packet too large")
+	}
+	// The encrypted part (padding length, payload, padding) is a non-empty
+	// multiple of the block size or 8, whichever is larger.
+	multiple := maxUInt32(cbcMinPacketSizeMultiple, c.decrypter.BlockSize())
+	if length < multiple || length%multiple != 0 {
+		return nil, errors.New("ssh: invalid packet length multiple")
+	}
+
+	macStart := 4 + length
+	entirePacketSize := macStart + c.macSize
+	if uint32(cap(c.packetData)) < entirePacketSize {
+		lengthBytes := c.packetData[:4]
+		c.packetData = make([]byte, entirePacketSize)
+		copy(c.packetData, lengthBytes)
+	} else {
+		c.packetData = c.packetData[:entirePacketSize]
+	}
+	if _, err := io.ReadFull(r, c.packetData[4:]); err != nil {
+		return nil, err
+	}
+
+	c.mac.Reset()
+	binary.BigEndian.PutUint32(c.seqNumBytes[:], seqNum)
+	c.mac.Write(c.seqNumBytes[:])
+	c.mac.Write(c.packetData[:macStart])
+	c.macResult = c.mac.Sum(c.macResult[:0])
+	if subtle.ConstantTimeCompare(c.macResult, c.packetData[macStart:]) != 1 {
+		return nil, errors.New("ssh: MAC failure")
+	}
+
+	c.decrypter.CryptBlocks(c.packetData[4:macStart], c.packetData[4:macStart])
+
+	paddingLength := uint32(c.packetData[4])
+	if paddingLength < cbcMinPaddingSize || length <= paddingLength+1 {
+		return nil, errors.New("ssh: invalid packet length")
+	}
+	return c.packetData[prefixLen : macStart-paddingLength], nil
+}
+
+// writeCipherPacketETM writes a packet in encrypt-then-MAC framing.
+func (c *cbcCipher) writeCipherPacketETM(seqNum uint32, w io.Writer, rand io.Reader, packet []byte) error {
+	if len(packet) > maxPacket {
+		return errors.New("ssh: packet too large")
+	}
+	multiple := maxUInt32(cbcMinPacketSizeMultiple, c.encrypter.BlockSize())
+	// The length field is not encrypted and does not count for the alignment.
+	length := maxUInt32(1+len(packet)+cbcMinPaddingSize, int(multiple))
+	length = (length + multiple - 1) / multiple * multiple
+	paddingLength := int(length) - (1 + len(packet))
+
+	bufferSize := 4 + length + c.macSize
+	if uint32(cap(c.packetData)) < bufferSize {
+		c.packetData = make([]byte, 4+length, bufferSize)
+	} else {
+		c.packetData = c.packetData[:4+length]
+	}
+
+	p := c.packetData
+	binary.BigEndian.PutUint32(p, length)
+	p[4] = byte(paddingLength)
+	copy(p[prefixLen:], packet)
+	if _, err := io.ReadFull(rand, p[prefixLen+len(packet):]); err != nil {
+		return err
+	}
+
+	c.encrypter.CryptBlocks(p[4:], p[4:])
+
+	c.mac.Reset()
+	binary.BigEndian.PutUint32(c.seqNumBytes[:], seqNum)
+	c.mac.Write(c.seqNumBytes[:])
+	c.mac.Write(c.packetData)
+	// The MAC is appended into the capacity reserved for it above.
+	c.packetData = c.mac.Sum(c.packetData)
+
+	_, err := w.Write(c.packetData)
+	return err
+}
+
 func (c *cbcCipher) writeCipherPacket(seqNum uint32, w io.Writer, rand io.Reader, packet []byte) error {
+	if c.etm {
+		return c.writeCipherPacketETM(seqNum, w, rand, packet)
+	}
 	effectiveBlockSize := maxUInt32(cbcMinPacketSizeMultiple, c.encrypter.BlockSize())
 
 	// Length of encrypted portion of the packet (header, payload, padding).
